@@ -11,41 +11,46 @@ from harness import lib_cross as L
 THEOREMS = 'Properties/C05.v'
 CLAIM = dict(
     text='Coq theorems (Properties/C05.v), for every dimension, mode sizes, ranks, rank-growth window, sweep count, '
-         'callback and numeric kernel. State-machine part, about the model Model/Cross.v of teneva.cross (shared with '
-         'C06): C05_func_eval_transparent - for an objective that is a function of the multi-index, _func_eval with a '
+         'callback. State-machine part, about the model Model/Cross.v of teneva.cross (shared with C06), any numeric '
+         'kernel: C05_func_eval_transparent - for an objective that is a function of the multi-index, _func_eval with a '
          'consistent cache and without cache return the same value array unless the uncached call is refused for the '
-         'budget, and m_cached <= m_uncached is kept; C05_cache_transparent - a cached and an uncached run with the same '
+         'budget, m_cached <= m_uncached is kept; C05_cache_transparent - a cached and an uncached run with the same '
          'arguments return the same cores, index sets, sweep count, stop reason and info r/e/e_vld, the cached run '
          'evaluating at most as many indices, provided the uncached run does not stop on the budget and the cached run '
          'does not stop by the cache-specific conv rule; C05_cache_content / C05_cache_keys - at every exit, for any '
          'objective, the dictionary is the initial one updated in call order with exactly the index->value pairs of '
-         'the successful objective calls; C05_info_consistent - at every exit info.r, info.e, info.e_vld are the values '
-         'of erank / accuracy / accuracy_on_data on the returned cores (accuracy against the cores saved at the start '
-         'of the last sweep). Numeric part, over any commutative ring, function view: C05_core_interp (Z = QR and '
-         'B Q[ind] = Q give B Z[ind] = Z), C05_skeleton_exact (A = XY with invertible intersections: '
-         'A = A[:,J] A[I,J]^-1 A[I,:]), C05_span_of_rank (TT-rank rho + right-invertible sampled columns give the '
-         'spanning hypothesis), C05_cross_exact_cond (conditional: if at every position of a left-to-right half sweep '
-         'B Z[ind] = Z holds and the sampled columns span the unfolding, the product of the cores G[a,j,c] = '
-         'B[a + r j, c] closed with the values at the last index set equals the target at EVERY multi-index; any '
-         'number of selected rows, so also under rank growth). Non-vacuity Examples over Z for both parts.',
-    note='PARTIAL / not proved: (1) C05_cross_exact_cond is about the interpolation scheme (index rows cand, cores as '
-         'Fortran reshape of B, closing factor Z[ind]); that teneva._iter computes exactly this scheme is NOT a Coq '
-         'theorem (the payload of Model/Cross.v is opaque) - it is checked on every run: identities on every recorded '
-         '_iter/_maxvol call (exact for reshape and index rows, 1e-9 for R = Z[ind], B Q[ind] = Q, B Z[ind] = Z) and the '
-         'Gallina half sweep runI at the float instance against the returned tensor. (2) "almost all tensors" '
-         '(measure zero of the bad set) is not formalised: genericity enters as the explicit hypotheses span_ok / '
-         'invertible intersections; the QR and maxvol contracts are hypotheses (C08). (3) only the left-to-right '
-         'half sweep is proved (the right-to-left one is its mirror image, not stated); the over-ranked regime is '
-         'covered only as far as its hypotheses hold - there an index set inherited from the pre-iteration can be '
-         'degenerate with positive probability (observed: interrupted over-ranked first sweep, error ~0.1), so it is '
-         'validated numerically at 1e-6 for completed sweeps only. (4) that the cores saved at sweep start are "the '
-         'tensor of the previous sweep" is validated with independent snapshots, not proved. (5) equality up to '
-         'rounding is a float fact: dense comparison at 1e-6 in search().',
+         'the successful objective calls; C05_info_consistent - at every exit info.r, info.e, info.e_vld are erank / '
+         'accuracy / accuracy_on_data of the returned cores (accuracy against the cores saved at the start of the last '
+         'sweep). Numeric part: Model/CrossNum.v instantiates the payload operations of Model/Cross.v with the array '
+         'operations of cross.py (reshape of the value batch, unfolding, QR oracle, utils._maxvol with its eye branch, '
+         'core = Fortran reshape of B, pending factor Q[ind] R, tensordot folds; both directions). '
+         'C05_iter_realises_scheme - a left-to-right _iter of this model computes one position of the interpolation '
+         'scheme (B Z[ind] = Z on the sampled columns, factor = Z[ind]) given Z = QR and B Q[ind] = Q on its own '
+         'matrices; C05_cross_exact_ltr / C05_cross_exact - for the MODEL DRIVER (Model/Cross.v step function with this '
+         'kernel, from any sweep head / from the state reached by cross_num): if at every position the sampled columns '
+         'span the unfolding of the target on the candidate rows and QR / maxvol meet their contracts there, the cores '
+         'held after a left-to-right half sweep evaluate to the target at EVERY multi-index (any working ranks, also '
+         'under rank growth). Supporting algebra over any commutative ring: C05_core_interp, C05_skeleton_exact '
+         '(A = A[:,J] A[I,J]^-1 A[I,:]), C05_span_of_rank (TT-rank rho + right-invertible sampled columns give the '
+         'spanning hypothesis), C05_cross_exact_cond (the abstract scheme). Non-vacuity Examples over Z for every part.',
+    note='PARTIAL / not proved: (1) only the left-to-right half sweep is proved exact; the right-to-left half sweep is '
+         'modelled and run in the correspondence but its exactness theorem (mirror image) is not stated. (2) "almost '
+         'all tensors" (measure zero of the bad set) is not formalised: genericity enters as the explicit spanning '
+         'hypothesis per position (pos_ok / span_ok), which C05_span_of_rank derives from TT-rank rho with invertible '
+         'intersections; that the index sets met by a run satisfy it is not proved - in the over-ranked regime an '
+         'index set inherited from the pre-iteration can be degenerate with positive probability (observed: '
+         'interrupted over-ranked first sweep, error ~0.1), so that regime is validated numerically at 1e-6 for '
+         'completed sweeps only. (3) QR (Z = QR) and maxvol (B Q[ind] = Q, C08) contracts are hypotheses, validated '
+         'on every recorded call. (4) that the cores saved at sweep start are "the tensor of the previous sweep" is '
+         'validated with independent snapshots, not proved. (5) equality up to rounding is a float fact: dense '
+         'comparison at 1e-6 in search().',
     technique='Coq proof (lock-step simulation of two runs of a small-step machine; inductive invariants; ring algebra '
-              'of interpolation) + exact replay correspondence of cached/uncached pairs + bitwise comparison of the '
-              'pairs on the implementation + recorded-oracle identities + dense rank-rho oracle')
+              'of interpolation carried through the instantiated driver) + exact replay correspondence of '
+              'cached/uncached pairs + instantiated model run at the float instance with replayed QR / maxvol vs '
+              'returned cores (1e-9) + bitwise comparison of pairs and call histories on the implementation + '
+              'recorded-oracle identities + dense rank-rho oracle')
 TRUSTED = ['Coq 8.16.1 kernel + vm_compute (case evaluation only)',
-           'hand-written model Model/Cross.v tied to cross.py / utils.py by exact replay correspondence',
+           'hand-written models Model/Cross.v (exact replay) and Model/CrossNum.v (float instance, replayed QR / maxvol, cores to 1e-9) tied to cross.py / utils.py',
            'numpy semantics of kron / hstack / reshape(order=F) / fancy indexing as transcribed in batch / inew',
            'harness recorders on teneva._maxvol, teneva.erank, teneva.accuracy, teneva.accuracy_on_data, teneva.copy, '
            'teneva.cross._func_eval, teneva.cross._iter, numpy.linalg.qr (module attributes, looked up at call time)']
@@ -553,22 +558,6 @@ def _pair_cfg(rng, small=False):
     return cfg
 
 
-NUM_HEADER = r"""
-From Coq Require Import List ZArith Floats Bool Arith.
-From TV Require Import Num.Ops Num.InstF Lin.BigSum Model.Cross Proofs.Cross05PInterp.
-Import ListNotations.
-Definition fmat (rows : list (list float)) (t s : nat) : float := nth s (nth t rows []) 0%float.
-Definition pos (n : nat) (ind : list nat) (B : list (list float)) : @posd float := mkposd n ind (fmat B) [].
-(* the half sweep of C05_cross_exact_cond at the float instance: value at q = <interface vector, closing vector>,
-   followed by the last left index set *)
-Definition eval_ltr (ps : list (@posd float)) (closing : list float) (qs : list (list nat)) : list (list Z) :=
-  map (fun q => let (L1, v1) := runI OF ps [[]] (e0 OF) q in
-                let (m, e) := F_show (bsum OF (length L1) (fun a => omul OF (v1 a) (nth a closing 0%float))) in [m; e]) qs
-  ++ [[-7]%Z]
-  ++ map (map Z.of_nat) (fst (runI OF ps [[]] (e0 OF) (map (fun _ => O) ps))).
-"""
-
-
 def run_ltr(tn, c):
     """one run on a rank-rho target, interrupted right after the first left-to-right half sweep of the main loop, with
     recorders on teneva._maxvol and teneva.cross._iter"""
@@ -614,10 +603,10 @@ def run_ltr(tn, c):
 def numeric_stream(R, ctx, tn):
     """numeric layer: (1) the identities the interpolation theorems start from, on every recorded _iter call of a
     left-to-right half sweep (core = Fortran reshape of B, new index rows = cand(ind), pending factor = Z[ind],
-    B Q[ind] = Q, B Z[ind] = Z); (2) the Gallina half sweep runI at the float instance, fed with the recorded ind / B and
-    the recorded closing factor, against the tensor the implementation returns when interrupted after that half sweep"""
+    B Q[ind] = Q, B Z[ind] = Z) and the utils._maxvol row-count window (the model itself is run by
+    model_num_stream)"""
     rng = ctx['rng']
-    items, idbad, meta = [], [], []
+    idbad = []
     dist = dict(kinds={}, d={}, iters=0)
     for j in range(400 if ctx['thorough'] else 90):
         c = gen_small_growth(rng) if j % 3 == 2 else gen_lowrank(rng)
@@ -668,39 +657,174 @@ def numeric_stream(R, ctx, tn):
             ps.append((n, ind, B))
             L = [L[t % len(L)] + [t // len(L)] for t in ind]
         else:
-            closing = rec['it'][3 * d - 1]['R'].reshape(-1)
-            F = full(o['Y'])
-            allq = [list(q) for q in np.ndindex(*c['ns'])]
-            qs = allq if len(allq) <= 16 else rng.sample(allq, 16)
-            term = 'eval_ltr [' + '; '.join(
-                f'pos {n}%nat {C.natlist(ind)} {C.nested(B.tolist(), C.flit)}%float' for n, ind, B in ps) + '] ' + \
-                C.nested(closing.tolist(), C.flit) + '%float ' + \
-                '[' + '; '.join(C.natlist(q) for q in qs) + ']'
-            items.append(term)
-            meta.append(dict(c=c, qs=qs, vals=[float(F[tuple(q)]) for q in qs], L=L, scale=float(np.abs(F).max())))
-    vals = C.run_cases('C05_num', NUM_HEADER, items, chunk=max(2, len(items) // 8)) if items else []
+            pass
     bad = []
-    for v, m in zip(vals, meta):
-        R.add_distinct(('num', m['c']))
-        k = v.index([-7])
-        mv = [C.float_of_show(p) for p in v[:k]]
-        Lm = [list(r) for r in v[k + 1:]]
-        err = max(abs(a - b) for a, b in zip(mv, m['vals'])) if mv else 0.0
-        if len(mv) != len(m['vals']) or not err <= 1e-9 * max(m['scale'], 1e-300) or Lm != m['L']:
-            bad.append(dict(input=['num', dict(lowrank=m['c'])], model=[mv[:4], Lm[:4]], impl=[m['vals'][:4], m['L'][:4]],
-                            err=err))
     R.corr.append(dict(name='identities behind the interpolation theorems on recorded _iter / _maxvol calls',
                        cases=dist['iters'], mismatches=len(idbad),
                        comparison='exact: core == Fortran reshape of B, new index rows == cand(ind); 1e-9 relative: '
                                   'R == Z[ind], B Q[ind] == Q, B Z[ind] == Z',
                        distribution=dist, first_mismatches=idbad[:3]))
-    R.corr.append(dict(name='Gallina half sweep runI (float instance, recorded ind / B / closing factor) vs returned tensor',
-                       cases=len(items), mismatches=len(bad),
-                       comparison='values at up to 16 multi-indices to 1e-9 of the largest entry; last left index set exact',
-                       distribution=dict(kinds=dist['kinds'], d=dist['d']), first_mismatches=bad[:3]))
-    if items:
-        R.samples.append(dict(stream='runI', input=meta[0]['c'], model=vals[0][:3], impl=meta[0]['vals'][:3]))
     return bad + [dict(input=['num', b['input']]) for b in idbad]
+
+
+MODEL_HEADER = r"""
+From Coq Require Import List ZArith Floats Bool Arith.
+From TV Require Import Num.Ops Num.InstF Lin.Tab Lin.Mat TT.Chain Model.Cross Model.CrossNum.
+Import ListNotations.
+Definition fclose (x y : float) : bool :=
+  PrimFloat.leb (PrimFloat.abs (PrimFloat.sub x y)) (PrimFloat.mul TOL (PrimFloat.add 1 (PrimFloat.abs y))).
+Fixpoint lclose (a b : list float) : bool :=
+  match a, b with [], [] => true | x :: a', y :: b' => fclose x y && lclose a' b' | _, _ => false end.
+Definition mclose (A B : mat float) : bool :=
+  Nat.eqb (mr A) (mr B) && Nat.eqb (mc A) (mc B) && lclose (concat (md A)) (concat (md B)).
+(* oracle instance: the recorded outputs of the real routine, looked up by the input matrix *)
+Fixpoint lookup {X} (tbl : list (mat float * X)) (A : mat float) (dflt : X) : X :=
+  match tbl with [] => dflt | (A0, x) :: t => if mclose A0 A then x else lookup t A dflt end.
+Definition zm : mat float := mk_mat 0 0 [].
+Definition flatidx (ns : list nat) (r : list nat) : nat :=
+  fold_left (fun acc p => (acc * fst p + snd p)%nat) (combine ns r) O.
+Definition showcore (G : @mcore (core float)) : list (list Z) :=
+  [Z.of_nat (c1 G); Z.of_nat (cnn G); Z.of_nat (c2 G)]
+  :: map (fun x => let (m, e) := F_show x in [m; e]) (concat (concat (dat (cp G)))).
+Definition run_num (Y0 : list (nat * nat * nat * list (list (list float)))) (nswp drmin drmax : nat) (cache : bool)
+    (kNone : option nat) (ns : list nat) (table : list float)
+    (qrtbl : list (mat float * (mat float * mat float))) (mvtbl : list (mat float * (list nat * mat float)))
+    (fuel : nat) : list (list (list Z)) :=
+  let Y := map (fun s => match s with (r1, n, r2, d) => mkc r1 n r2 (mk_core r1 n r2 d) end) Y0 in
+  let cf := mkcfg Y None None (Some nswp) None false false drmin drmax 200 (if cache then Some [] else None) in
+  let f := fun (k : nat) (I : rows) =>
+     match kNone with
+     | Some k0 => if Nat.eqb k k0 then None else Some (map (fun r => nth (flatidx ns r) table nan) I)
+     | None => Some (map (fun r => nth (flatidx ns r) table nan) I) end in
+  let qr := fun Z => lookup qrtbl Z (zm, zm) in
+  let mvI := fun (Q : mat float) (_ _ : nat) => fst (lookup mvtbl Q ([], zm)) in
+  let mvB := fun (Q : mat float) (_ : list nat) => snd (lookup mvtbl Q ([], zm)) in
+  match cross_num OF qr mvI mvB is_infinity f None (fun _ _ => 0%float) (fun _ _ _ => 0%float) (fun _ _ => 0%float)
+          cf fuel with
+  | Err er => [[[err_code er]]]
+  | Ok s => [[Z.of_nat (stop_code (k_stop (sK s))); Z.of_nat (s_nswp s); Z.of_nat (k_m (sK s));
+              Z.of_nat (k_mc (sK s))]] :: map showcore (sY s)
+  end.
+""".replace('TOL', '(' + C.flit(1e-9) + ')%float')
+
+
+def _fmatlit(A):
+    A = np.asarray(A, float)
+    if A.ndim == 1:
+        A = A.reshape(-1, 1)
+    return f'(mk_mat {A.shape[0]} {A.shape[1]} {C.nested(A.tolist(), C.flit)}%float)'
+
+
+def run_recorded(tn, c, kNone=None):
+    """one cross run on a rank-rho target with recorders on numpy.linalg.qr (calls made by cross.py) and
+    teneva._maxvol"""
+    A, Y0 = lowrank_target(c)
+    rec = dict(qr=[], mv=[], mvargs=[])
+    o_mv, o_qr = tn._maxvol, np.linalg.qr
+
+    def w_mv(Am, *a, **k):
+        I, B = o_mv(Am, *a, **k)
+        rec['mv'].append((np.array(Am, copy=True), [int(x) for x in I], np.array(B, copy=True)))
+        rec['mvargs'].append(a)
+        return I, B
+
+    def w_qr(Z, *a, **k):
+        out = o_qr(Z, *a, **k)
+        if sys._getframe(1).f_code.co_filename.endswith('cross.py'):
+            rec['qr'].append((np.array(Z, copy=True), np.array(out[0], copy=True), np.array(out[1], copy=True)))
+        return out
+
+    ncall = [0]
+
+    def f(I):
+        k = ncall[0]
+        ncall[0] += 1
+        if kNone is not None and k == kNone:
+            return None
+        return A[tuple(np.asarray(I).T)]
+
+    info = {}
+    cache = {} if c['cache'] else None
+    tn._maxvol, np.linalg.qr = w_mv, w_qr
+    try:
+        with warnings.catch_warnings():
+            warnings.simplefilter('ignore')
+            with np.errstate(all='ignore'):
+                Y = tn.cross(f, [G.copy() for G in Y0], nswp=c['nswp'], dr_min=c['dr_min'], dr_max=c['dr_max'],
+                             info=info, cache=cache, m_cache_scale=200)
+    finally:
+        tn._maxvol, np.linalg.qr = o_mv, o_qr
+    return dict(A=A, Y0=Y0, Y=Y, info=info, rec=rec, ncall=ncall[0])
+
+
+def model_num_stream(R, ctx, tn):
+    """the instantiated model Model/CrossNum.v (cross_num at the float instance, QR and maxvol replayed from the
+    recorded calls by input matrix, objective = table of the target) against the implementation: returned cores to
+    1e-9 of the largest entry of each core, stop / nswp / m / m_cache exactly"""
+    rng = ctx['rng']
+    items, meta = [], []
+    dist = dict(kinds={}, d={}, interrupted=0, cache=0)
+    for j in range(200 if ctx['thorough'] else 36):
+        c = gen_small_growth(rng) if j % 4 == 3 else gen_lowrank(rng)
+        c['nswp'] = min(c['nswp'], rng.choice([1, 2]))
+        if int(np.prod(c['ns'])) > 200 or max(c['r0']) > 4:
+            continue
+        kNone = None
+        o = run_recorded(tn, c)
+        if j % 3 == 1 and o['ncall'] > 1:
+            kNone = rng.randrange(o['ncall'])
+            o = run_recorded(tn, c, kNone)
+            dist['interrupted'] += 1
+        if len(o['rec']['qr']) > 40:
+            continue
+        dist['kinds'][c['kind']] = dist['kinds'].get(c['kind'], 0) + 1
+        dist['d'][len(c['ns'])] = dist['d'].get(len(c['ns']), 0) + 1
+        dist['cache'] += bool(c['cache'])
+        Y0l = '[' + '; '.join(f'({G.shape[0]}, {G.shape[1]}, {G.shape[2]}, {C.nested(G.tolist(), C.flit)}%float)%nat'
+                              for G in o['Y0']) + ']'
+        qrt = '[' + '; '.join(f'({_fmatlit(Z)}, ({_fmatlit(Q)}, {_fmatlit(Rr)}))' for Z, Q, Rr in o['rec']['qr']) + ']'
+        mvt = '[' + '; '.join(f'({_fmatlit(Q)}, ({C.natlist(ind)}, {_fmatlit(B)}))' for Q, ind, B in o['rec']['mv']) + ']'
+        kn = 'None' if kNone is None else f'(Some {kNone}%nat)'
+        term = (f"run_num {Y0l} {c['nswp']}%nat {c['dr_min']}%nat {c['dr_max']}%nat "
+                f"{'true' if c['cache'] else 'false'} {kn} {C.natlist(c['ns'])} "
+                f"{C.nested(o['A'].reshape(-1).tolist(), C.flit)}%float {qrt} {mvt} {c['nswp'] + 2}%nat")
+        items.append(term)
+        meta.append(dict(c=dict(c, kNone=kNone), o=o))
+    vals = C.run_cases('C05_model', MODEL_HEADER, items, chunk=max(1, len(items) // 12)) if items else []
+    bad = []
+    for v, m in zip(vals, meta):
+        R.add_distinct(('model', m['c']))
+        o, info = m['o'], m['o']['info']
+        why = None
+        exp0 = [L.STOPS.get(info['stop'], 99), int(info['nswp']), int(info['m']), int(info['m_cache'])]
+        if len(v) == 1 and len(v[0]) == 1 and len(v[0][0]) == 1:
+            why = f'model returned error code {v[0][0][0]}'
+        elif list(v[0][0]) != exp0:
+            why = f'stop/nswp/m/m_cache: model {list(v[0][0])} impl {exp0}'
+        elif len(v) - 1 != len(o['Y']):
+            why = 'number of cores'
+        else:
+            for k, (cm, G) in enumerate(zip(v[1:], o['Y'])):
+                G = np.asarray(G)
+                if list(cm[0]) != list(G.shape):
+                    why = f'core {k}: shape model {list(cm[0])} impl {list(G.shape)}'
+                    break
+                x = np.array([C.float_of_show(p) for p in cm[1:]]).reshape(G.shape) if G.size else np.zeros(G.shape)
+                err = float(np.abs(x - G).max()) if G.size else 0.0
+                if not err <= 1e-9 * max(float(np.abs(G).max()), 1e-300):
+                    why = f'core {k}: max deviation {err:.3e} (largest entry {float(np.abs(G).max()):.3e})'
+                    break
+        if why:
+            bad.append(dict(input=['model', dict(lowrank=m['c'])], why=why))
+    R.corr.append(dict(name='instantiated model Model/CrossNum.v (float instance, replayed qr / maxvol) vs implementation',
+                       cases=len(items), mismatches=len(bad),
+                       comparison='every returned core entrywise to 1e-9 of its largest entry; core shapes, stop, nswp, m, '
+                                  'm_cache exactly; complete and interrupted runs, with and without cache',
+                       distribution=dist, first_mismatches=bad[:3]))
+    if items:
+        R.samples.append(dict(stream='cross_num', input=meta[0]['c'], model=str(vals[0][:2])[:300],
+                              impl=[meta[0]['o']['info']['stop'], [list(np.shape(G)) for G in meta[0]['o']['Y']]]))
+    return bad
 
 
 def correspondence(R, ctx):
@@ -762,7 +886,7 @@ def correspondence(R, ctx):
                             'same call with a fresh info', cases=nh, mismatches=len(hbad),
                        comparison='cores bitwise, nswp, stop, m, m_cache, r, e, e_vld, m_max, with_cache, cache dict',
                        distribution={}, first_mismatches=hbad[:3]))
-    bad_num = numeric_stream(R, ctx, tn)
+    bad_num = numeric_stream(R, ctx, tn) + model_num_stream(R, ctx, tn)
     return bad + [dict(input=['pair', f['input']]) for f in pair_bad + info_bad + hbad] + bad_num
 
 
